@@ -242,14 +242,117 @@ def coq_call(name, args):
     raise KeyError(name)
 
 
+# ------------------------------------------------------------------------------------------ coqc with a content-addressed cache
+# Every model is regenerated from $VERIF_REPO on every run and every file is still handed to `coqc` -- unless exactly this compilation
+# has been done before: key = sha256 of (file name, file text, the BYTES of the .vo of every FPGen library it requires as they lie in
+# the build directory, the bytes of every .vo under coq/theories, coqc flags).  A hit copies the .vo into the build directory and
+# returns the recorded stdout (Print Assumptions / Eval output) of the original compilation; a changed source changes the generated
+# text, hence its key and -- through the .vo bytes -- the key of everything compiled against it.  Only successful compilations are
+# stored.  Cache: coq/gen_build/<key>/ (VERIF_GEN_CACHE=0 switches it off).
+CTX = None                      # the run's Ctx, for the evidence counters cache_hits / recompiled (set by the run_generated_* entry points)
+CACHE_MAX = 1500                # entries kept (least recently used go first)
+_theories_stamp = None
+
+
+def _sha(*parts):
+    import hashlib
+    h = hashlib.sha256()
+    for x in parts:
+        b = x if isinstance(x, bytes) else str(x).encode()
+        h.update(str(len(b)).encode() + b":" + b)
+    return h.hexdigest()
+
+
+def theories_stamp():
+    global _theories_stamp
+    if _theories_stamp is None:
+        acc = []
+        root = os.path.join(common.COQ, "theories")
+        for d, _, fs in sorted(os.walk(root)):
+            for f in sorted(fs):
+                if f.endswith(".vo"):
+                    acc.append(os.path.relpath(os.path.join(d, f), root)); acc.append(open(os.path.join(d, f), "rb").read())
+        _theories_stamp = _sha(*acc)
+    return _theories_stamp
+
+
+def cache_key(build, fname):
+    src = open(os.path.join(build, fname)).read()
+    deps = set()
+    for m in re.finditer(r"\bRequire\b([^.]*(?:\.\w[^.]*)*)\.(?=\s|$)", common.strip_coq_comments(src)):      # every library named in a Require sentence
+        for w in re.findall(r"[\w.]+", m.group(1)):
+            w = w.split(".")[-1]
+            if os.path.exists(os.path.join(build, w + ".v")) or os.path.exists(os.path.join(build, w + ".vo")): deps.add(w)
+    deps.discard(fname[:-2])
+    parts = ["coqc 8.16.1 -Q theories FP -Q build FPGen -w -all", fname, src, theories_stamp()]
+    for d in sorted(deps):
+        vo = os.path.join(build, d + ".vo")
+        parts += [d, open(vo, "rb").read() if os.path.exists(vo) else b"<missing>"]
+    return _sha(*parts)
+
+
+def cache_dir():
+    return os.path.join(common.COQ, "gen_build")
+
+
+def _count(what):
+    if CTX is not None:
+        try: CTX.count("generated_model", what)
+        except Exception: pass
+
+
 def coqc(build, fname, timeout=COQC_TIMEOUT):
+    import json
     t0 = time.time()
+    use = os.environ.get("VERIF_GEN_CACHE", "1") != "0"
+    key = entry = None
+    if use:
+        try:
+            key = cache_key(build, fname); entry = os.path.join(cache_dir(), key)
+            vo = os.path.join(entry, fname[:-2] + ".vo")
+            if os.path.exists(os.path.join(entry, "meta.json")) and os.path.exists(vo):
+                meta = json.load(open(os.path.join(entry, "meta.json")))
+                if meta.get("file") == fname and meta.get("rc") == 0:
+                    shutil.copyfile(vo, os.path.join(build, fname[:-2] + ".vo"))
+                    os.utime(entry, None)
+                    _count("cache_hits")
+                    return 0, meta["stdout"], meta.get("log", ""), round(time.time() - t0, 2)
+        except Exception:
+            key = entry = None
     p = subprocess.run(["timeout", str(timeout), "coqc", "-Q", os.path.join(common.COQ, "theories"), "FP", "-Q", build, "FPGen", "-w", "-all", fname],
                        cwd=build, capture_output=True, text=True)
+    _count("recompiled")
     err = p.stderr if p.returncode else ""
     m = re.search(r'File "[^"]*", line \d+, characters [\d-]+:\s*(Error:.*)', err, re.S)      # keep the START of the (first) error message
     log = (err[m.start():m.start() + 1200] if m else (p.stdout + p.stderr)[-1500:])
+    if use and entry and p.returncode == 0 and os.path.exists(os.path.join(build, fname[:-2] + ".vo")):
+        try:
+            os.makedirs(cache_dir(), exist_ok=True)
+            tmp = tempfile.mkdtemp(prefix="tmp_", dir=cache_dir())
+            shutil.copyfile(os.path.join(build, fname[:-2] + ".vo"), os.path.join(tmp, fname[:-2] + ".vo"))
+            json.dump({"file": fname, "rc": 0, "stdout": p.stdout, "log": log, "secs": round(time.time() - t0, 2)}, open(os.path.join(tmp, "meta.json"), "w"))
+            try:
+                os.rename(tmp, entry)
+            except OSError:
+                shutil.rmtree(tmp, ignore_errors=True)          # another run stored the same compilation meanwhile
+            _prune()
+        except Exception:
+            pass
     return p.returncode, p.stdout, log, round(time.time() - t0, 2)
+
+
+def _prune():
+    try:
+        es = [os.path.join(cache_dir(), e) for e in os.listdir(cache_dir())]
+        for e in es:
+            if os.path.basename(e).startswith("tmp_") and time.time() - os.path.getmtime(e) > 3600: shutil.rmtree(e, ignore_errors=True)
+        es = [e for e in es if os.path.isdir(e) and not os.path.basename(e).startswith("tmp_")]
+        if len(es) > CACHE_MAX:
+            es.sort(key=os.path.getmtime)
+            for e in es[:len(es) - CACHE_MAX + 100]:
+                shutil.rmtree(e, ignore_errors=True)
+    except Exception:
+        pass
 
 
 def eval_model(build, name, cases):
@@ -273,6 +376,7 @@ def eval_model(build, name, cases):
 def translate_and_prove(ctx, name, build, proof_file, compiled=None, remap=None):
     """(i) translate the current source of `name` into build/Gen_<name>.v and compile it, (ii) compile the hand-written proof script
     against it and check Print Assumptions.  Returns (model_ok, problems).  `compiled`: set of targets already built in `build`."""
+    global CTX; CTX = ctx
     problems = []; compiled = compiled if compiled is not None else set()
     gen = os.path.join(build, "Gen_%s.v" % name)
     p = subprocess.run([sys.executable, os.path.join(common.ROOT, "harness", "translate.py"), name, "--repo", common.REPO, "-o", gen], capture_output=True, text=True)
@@ -485,6 +589,7 @@ def one(ctx, name, root):
 
 
 def run_generated(ctx, names):
+    global CTX; CTX = ctx
     base = os.path.join(common.OUT, "work", "gen"); os.makedirs(base, exist_ok=True)
     root = tempfile.mkdtemp(prefix="run_", dir=base)
     try:
